@@ -39,6 +39,22 @@ def run(ctx: Ctx) -> None:
     ex = ctx.prog.func("py7zr", "Worker.extract")
     cfg = cfg_of(ex.node)
     spawns = list(spawn_sites(ctx, ex))
+    # tasks started with a closure instead of target=/args=: loop variables are bound late
+    for c in q.calls(ex):
+        tgt = next((k.value for k in c.keywords if k.arg == "target"), None)
+        if isinstance(tgt, ast.Lambda):
+            loop_vars = set()
+            for lp in q.enclosing_loops(ex, c):
+                loop_vars |= {x.id for x in ast.walk(lp.target) if isinstance(x, ast.Name)} if isinstance(lp, ast.For) else set()
+                loop_vars |= {t.id for n in ast.walk(lp) if isinstance(n, ast.Assign) for t in n.targets if isinstance(t, ast.Name)}
+            free = {x.id for x in ast.walk(tgt.body) if isinstance(x, ast.Name)} - {a.arg for a in tgt.args.args} - {a.arg for a in tgt.args.kwonlyargs}
+            defaults = {a.arg for a in tgt.args.args[len(tgt.args.args) - len(tgt.args.defaults):]} if tgt.args.defaults else set()
+            late = sorted((free & loop_vars) - defaults)
+            ctx.check(not late, "R13.1", ex, c, "task closure captures no loop variable",
+                      f"the task is started with a lambda that captures the loop variable(s) {late} by reference: a task that starts after the loop advanced works on another "
+                      "folder (folders skipped or decoded twice, depending on scheduling)")
+    if not spawns and any(isinstance(next((k.value for k in c.keywords if k.arg == "target"), None), ast.Lambda) for c in q.calls(ex)):
+        return
     ctx.floor("R13.1", len(spawns), 1, "task spawn sites in Worker.extract")
     for c, tgt, args in spawns:
         targets = [ctx.res._func_by_q(t[1]) for t in ctx.res.infer(tgt, ex) if t[0] == "func"]
@@ -92,6 +108,16 @@ def run(ctx: Ctx) -> None:
                     ctx.fail("R13.2", g, n, f"{gq} (reachable from the worker task) mutates shared container {norm(n.func.value)}", path=ctx.res.call_path([tf], gq))
         ctx.ok("R13.2", f"{n_fn} methods of shared classes in closure({tf.qname}) inspected for attribute stores")
         ctx.floor("R13.2", n_fn, 3, "methods of shared classes in the task closure")
+        # R13.5 filesystem operations shared between tasks are race-free ---------------------------
+        for gq, g in sorted(clo.items()):
+            for mk in [x for x in q.calls(g) if attr_tail(x) in ("mkdir", "makedirs")]:
+                eo = next((k.value for k in mk.keywords if k.arg == "exist_ok"), None)
+                in_try = any(isinstance(t, ast.Try) and any(mk in list(ast.walk(st)) for st in t.body) and any(
+                    h.type is None or "FileExistsError" in norm(h.type) or "OSError" in norm(h.type) for h in t.handlers) for t in walk(g.node) if isinstance(t, ast.Try))
+                ok = (isinstance(eo, ast.Constant) and eo.value is True) or in_try
+                ctx.check(ok, "R13.5", g, mk, f"{gq}: directory creation tolerates a concurrent creator",
+                          "a directory is created with check-then-mkdir (no exist_ok=True / FileExistsError handling) inside the worker task: two folder tasks that need the same "
+                          "parent directory race, the loser raises FileExistsError and its members are missing", path=ctx.res.call_path([tf], gq))
         # R13.3 error channel ----------------------------------------------------------------
         chan_params = [p for p, a in bind.items() if isinstance(a, ast.Name) and any(
             isinstance(v, ast.Call) and attr_tail(v) in ("Queue", "SimpleQueue") for v in q.assigned_values(ex, a.id))]
